@@ -112,7 +112,7 @@ def restricted(sv, q, k):
     return sv2, q2, label
 
 
-def compare_parts(p3, p2, rec, tag, skip=()):
+def compare_parts(p3, p2, rec, tag, skip=(), sigmap=None):
     s3 = observe.snapshot(p3)
     s2 = observe.snapshot(p2)
     kinds = observe.SLICE_KINDS if "column_labels" in s3 else observe.STRAND_KINDS
@@ -127,12 +127,13 @@ def compare_parts(p3, p2, rec, tag, skip=()):
         if isinstance(a, Raised) or isinstance(b, Raised):
             if not _eq(a, b):
                 rec.violation("%s %s: partition %r, reference analysis %r" % (tag, name, a, b),
-                              "raise-" + name)
+                              (sigmap or {}).get(name, "raise-" + name))
             continue
         ok = _same(kind, a, b)
         if not ok:
             rec.violation("%s %s differs from the analysis of the restricted survey: %s vs %s"
-                          % (tag, name, _fmt(a), _fmt(b)), "differs-" + name)
+                          % (tag, name, _fmt(a), _fmt(b)),
+                          (sigmap or {}).get(name, "differs-" + name))
 
 
 def _same(kind, a, b):
@@ -277,6 +278,9 @@ def case_set_st(draw):
             svars["r"] = draw(scen.S.mr_var_st("r", n, max_items=3))
     elif kind == "ca0":
         svars["r"] = draw(scen.S.ca_var_st("r", n, max_items=3, max_valid=4))
+        if draw(st.integers(0, 3)) == 0:
+            # the tab book reports a numeric summary (mean / sum of x) in every cell
+            svars["x"] = draw(scen.S.num_var_st("x", n))
     else:
         svars["x"] = draw(scen.S.num_var_st("x", n))
     survey = {"n": n, "weights": weights, "vars": svars}
@@ -420,10 +424,14 @@ def judge_set(case, rec):
         qs = [{"dims": [], "weighted": w, "measure": m}] + [
             {"dims": [{"var": c}], "weighted": w, "measure": m} for c in case["cols"]]
     elif kind == "ca0":
-        qs = [{"dims": [{"var": "r", "part": "items"}, {"var": "r", "part": "cats"}],
-               "weighted": w}] + [
-            {"dims": [{"var": "r", "part": "items"}, {"var": "r", "part": "cats"}, {"var": c}],
-             "weighted": w} for c in case["cols"]]
+        extra = {}
+        if "x" in sv["vars"]:
+            extra = {"measure": {"var": "x", "stats": ["mean", "sum"], "valid_counts": False}}
+            rec.event("CA-as-0th with a numeric summary")
+        qs = [dict({"dims": [{"var": "r", "part": "items"}, {"var": "r", "part": "cats"}],
+                    "weighted": w}, **extra)] + [
+            dict({"dims": [{"var": "r", "part": "items"}, {"var": "r", "part": "cats"},
+                           {"var": c}], "weighted": w}, **extra) for c in case["cols"]]
     else:
         qs = [{"dims": [{"var": "r"}], "weighted": w}] + [
             {"dims": [{"var": "r"}, {"var": c}], "weighted": w} for c in case["cols"]]
@@ -456,17 +464,21 @@ def judge_set(case, rec):
                 "type": "cat", "flavour": "cat", "alias": "r", "name": ca["name"],
                 "cats": ca["cats"], "answers": [a[k] for a in ca["answers"]],
                 "use_order_key": False, "view_insertions": None}
-            ref1 = lib.cube(zz9enc.encode(sv2, {"dims": [{"var": "r"}], "weighted": w}), {},
+            ref1 = lib.cube(zz9enc.encode(sv2, dict({"dims": [{"var": "r"}], "weighted": w},
+                                                    **extra)), {},
                             case["population"], case["min_base"]).partitions[0]
             compare_parts(psets[k][0], ref1, rec, "CA-as-0th strand %d:" % k,
-                          skip=("title",))
+                          skip=("title",),
+                          sigmap={n_: "ca0-strand-numeric-measures"
+                                  for n_ in ("means", "sums", "share_sum", "smoothed_means",
+                                             "stddev", "medians")} if extra else None)
             want = "%s: %s" % (ca["name"], ca["items"][k]["name"])
             if psets[k][0].table_name != want:
                 rec.violation("strand table_name %r, expected %r" % (
                     psets[k][0].table_name, want), "table-name")
             for j, c in enumerate(case["cols"]):
-                ref2 = lib.cube(zz9enc.encode(sv2, {"dims": [{"var": "r"}, {"var": c}],
-                                                    "weighted": w}), {},
+                ref2 = lib.cube(zz9enc.encode(sv2, dict({"dims": [{"var": "r"}, {"var": c}],
+                                                         "weighted": w}, **extra)), {},
                                 case["population"], case["min_base"]).partitions[0]
                 compare_parts(psets[k][j + 1], ref2, rec, "CA-as-0th slice %d/%d:" % (k, j))
     else:
